@@ -83,6 +83,11 @@ class Engine:
                          ['%s (now %s)' % (v, k)
                           for k, v in sorted(al.moved.items())],
                          ['%s.%s (now %s)' % x for x in al.attrs]))
+        if getattr(al, 'restored', None):
+            ctx.note('pinned helpers found inlined in their callers and put '
+                     'back: %s' % ['%s (in %s)' % (
+                         k, sorted({c for c, _ in ss}))
+                         for k, ss in al.restored])
         n = self.m.norm
         if n.helpers:
             ctx.record('introduced_helpers', sorted(n.helpers))
